@@ -24,6 +24,7 @@ P = 2**256 - 2**32 - 977
 N = 0xFFFFFFFFFFFFFFFFFFFFFFFFFFFFFFFEBAAEDCE6AF48A03BBFD25E8CD0364141
 MOD = {"field": P, "scalar": N}
 M64 = 2**64 - 1
+MULOP = {"zero": 0, "one": 1, "top_bit_only": 1 << 63, "all_ones": M64}
 UNCONSTRAINED = {"Reduce", "Selectznz", "CMove", "cmovznzU64"}
 GOENV = dict(os.environ, GOFLAGS="-mod=mod", GOPROXY="off", GOSUMDB="off", GOTOOLCHAIN="local")
 HERE = os.path.dirname(os.path.abspath(__file__))
@@ -95,19 +96,36 @@ def ceval(prog, inputs):
     return vals
 
 
+def site_ids(prog):
+    """stable names of the sites: position#ordinal-on-that-line-among-sites-of-that-kind"""
+    cnt, ids = {}, []
+    for s in prog.get("sites") or []:
+        k = (s["pos"], s["kind"])
+        cnt[k] = cnt.get(k, 0) + 1
+        ids.append("%s#%d" % (s["pos"], cnt[k]))
+    return ids
+
+
+def tid(prog, t):
+    return "%s:%s:%s" % (prog["_ids"][t[0]], t[1], t[2])
+
+
 def targets(prog):
     """[(site index, kind, name)]"""
+    prog["_ids"] = site_ids(prog)
     out = []
     for si, s in enumerate(prog.get("sites") or []):
         k = s["kind"]
         if k in ("add64", "sub64"):
             cin_const = prog["nodes"][s["a"][2]]["op"] == "const"
-            names = ["out1"] if cin_const else ["out1", "in1_out1", "ripple", "in1_out0", "in0_out1"]
+            names = ["out1"] if cin_const else ["out1", "in1_out1", "ripple", "in1_out0", "in0_out1", "in1_a_ones", "in1_b_ones"]
             out += [(si, k, nm) for nm in names]
         elif k in ("plus", "minus"):
             out.append((si, k, "wraps"))
         elif k == "callarg":
             out += [(si, k, "zero"), (si, k, "nonzero")]
+        elif k == "mulop":
+            out += [(si, k, nm) for nm in ("zero", "one", "top_bit_only", "all_ones")]
     return out
 
 
@@ -127,6 +145,10 @@ def holds(prog, vals, t):
             return c == 0 and cout == 1
         if nm == "ripple":
             return c == 1 and ((a + b == M64) if k == "add64" else (a == b))
+        if nm == "in1_a_ones":
+            return c == 1 and a == (M64 if k == "add64" else 0)
+        if nm == "in1_b_ones":
+            return c == 1 and b == M64
     if k == "plus":
         w = prog["nodes"][s["r"][0]]["w"]
         return vals[s["a"][0]] + vals[s["a"][1]] > mask(w)
@@ -134,6 +156,8 @@ def holds(prog, vals, t):
         return vals[s["a"][0]] < vals[s["a"][1]]
     if k == "callarg":
         return (vals[s["a"][0]] == 0) == (nm == "zero")
+    if k == "mulop":
+        return vals[s["a"][0]] == MULOP[nm]
     return False
 
 
@@ -177,25 +201,30 @@ def rand_inputs(prog, rng):
 
 # ------------------------------------------------------------------ z3
 
-def z3_solve(args):
-    prog, t, timeout = args
+def _cone(prog, t):
+    s = prog["sites"][t[0]]
+    need, st = set(), list(s["a"] + (s.get("r") or []))
+    while st:
+        x = st.pop()
+        if x in need:
+            continue
+        need.add(x)
+        st.extend(prog["nodes"][x].get("a", []))
+    return need
+
+
+def _z3_attempt(prog, t, need, fixed, timeout):
+    """One query.  fixed: {(input name, index): int} -- inputs held at concrete values (the rest are unknowns)."""
     import z3
     si, k, nm = t
     s = prog["sites"][si]
-    need = set()
+    zv, ins = {}, {}
 
-    def mark(i):
-        st = [i]
-        while st:
-            x = st.pop()
-            if x in need:
-                continue
-            need.add(x)
-            st.extend(prog["nodes"][x].get("a", []))
-    for x in s["a"] + s.get("r", []) if s.get("r") else s["a"]:
-        mark(x)
-    zv = {}
-    ins = {}
+    def inp(name, idx, w):
+        key = (name, idx)
+        if key not in ins:
+            ins[key] = z3.BitVecVal(fixed[key], w) if key in fixed else z3.BitVec("%s_%d" % key, w)
+        return ins[key]
     for i, n in enumerate(prog["nodes"]):
         if i not in need:
             continue
@@ -203,9 +232,7 @@ def z3_solve(args):
         if op == "const":
             zv[i] = z3.BitVecVal(int(n["v"]), w if w else 64)
         elif op == "input":
-            key = (n["v"], n.get("i", 0))
-            ins[key] = z3.BitVec("%s_%d" % key, w)
-            zv[i] = ins[key]
+            zv[i] = inp(n["v"], n.get("i", 0), w)
         elif op == "add64":
             sm = z3.ZeroExt(2, zv[a[0]]) + z3.ZeroExt(2, zv[a[1]]) + z3.ZeroExt(2, zv[a[2]])
             zv[i] = (z3.Extract(63, 0, sm), z3.ZeroExt(63, z3.Extract(64, 64, sm)))
@@ -247,13 +274,9 @@ def z3_solve(args):
     sol.set("timeout", int(timeout * 1000))
     mod = MOD[prog["pkg"]]
     free = prog["func"] in UNCONSTRAINED
-    for inp in prog["inputs"]:
-        if inp["len"] == 4 and inp["w"] == 64 and not free:
-            ls = [ins.get((inp["name"], i)) for i in range(4)]
-            if any(l is None for l in ls):
-                ls = [l if l is not None else z3.BitVec("%s_%d" % (inp["name"], i), 64) for i, l in enumerate(ls)]
-                for i in range(4):
-                    ins[(inp["name"], i)] = ls[i]
+    for d in prog["inputs"]:
+        if d["len"] == 4 and d["w"] == 64 and not free:
+            ls = [inp(d["name"], i, 64) for i in range(4)]
             sol.add(z3.ULT(z3.Concat(ls[3], ls[2], ls[1], ls[0]), z3.BitVecVal(mod, 256)))
     if k in ("add64", "sub64"):
         a, b, c = (zv[x] for x in s["a"])
@@ -261,7 +284,9 @@ def z3_solve(args):
         one, zero = z3.BitVecVal(1, 64), z3.BitVecVal(0, 64)
         cond = {"out1": [cout == one], "in1_out1": [c == one, cout == one], "in1_out0": [c == one, cout == zero],
                 "in0_out1": [c == zero, cout == one],
-                "ripple": [c == one, (a + b == z3.BitVecVal(M64, 64)) if k == "add64" else (a == b)]}[nm]
+                "ripple": [c == one, (a + b == z3.BitVecVal(M64, 64)) if k == "add64" else (a == b)],
+                "in1_a_ones": [c == one, a == z3.BitVecVal(M64 if k == "add64" else 0, 64)],
+                "in1_b_ones": [c == one, b == z3.BitVecVal(M64, 64)]}[nm]
         if k == "add64" and nm == "ripple":
             cond.append(z3.UGE(a + b, a))   # no wrap in a + b itself
         sol.add(*cond)
@@ -273,21 +298,69 @@ def z3_solve(args):
     elif k == "callarg":
         a = zv[s["a"][0]]
         sol.add(a == 0 if nm == "zero" else a != 0)
-    t0 = time.time()
+    elif k == "mulop":
+        sol.add(zv[s["a"][0]] == z3.BitVecVal(MULOP[nm], 64))
     r = sol.check()
-    dt = time.time() - t0
     if r != z3.sat:
-        return (prog["pkg"], prog["func"], t, str(r), dt, None)
+        return str(r), None
     m = sol.model()
     out = {}
-    for inp in prog["inputs"]:
-        if inp["len"] == 0:
-            v = ins.get((inp["name"], 0))
-            out[inp["name"]] = m.eval(v, model_completion=True).as_long() if v is not None else 0
-        else:
-            out[inp["name"]] = [m.eval(ins[(inp["name"], i)], model_completion=True).as_long() if (inp["name"], i) in ins else 0
-                                for i in range(inp["len"])]
-    return (prog["pkg"], prog["func"], t, "sat", dt, out)
+    for d in prog["inputs"]:
+        def val(idx):
+            key = (d["name"], idx)
+            if key in fixed:
+                return fixed[key]
+            if key in ins:
+                return m.eval(ins[key], model_completion=True).as_long()
+            return 0
+        out[d["name"]] = val(0) if d["len"] == 0 else [val(i) for i in range(d["len"])]
+    return "sat", out
+
+
+def z3_solve(args):
+    """Full symbolic query when the cone is shallow; otherwise (and after an 'unknown') CONCOLIC queries: all input
+    limbs but one or two held at random concrete values, so that the products become products by constants."""
+    prog, t, timeout = args
+    need = _cone(prog, t)
+    muls = sum(1 for x in need if prog["nodes"][x]["op"] == "mul64")
+    t0 = time.time()
+    res = "unknown"
+    if muls <= 6:
+        res, inp = _z3_attempt(prog, t, need, {}, timeout)
+        if res in ("sat", "unsat"):
+            return (prog["pkg"], prog["func"], t, res, time.time() - t0, inp)
+    rng = random.Random(hash((prog["pkg"], prog["func"]) + tuple(t)) & 0xffffffff)
+    keys = sorted({(prog["nodes"][x]["v"], prog["nodes"][x].get("i", 0)) for x in need if prog["nodes"][x]["op"] == "input"})
+    arrs = {d["name"]: d for d in prog["inputs"]}
+    if not keys:
+        return (prog["pkg"], prog["func"], t, res, time.time() - t0, None)
+    choices = [[k] for k in keys] + [[keys[i], keys[j]] for i in range(len(keys)) for j in range(i + 1, len(keys)) if keys[i][0] != keys[j][0]]
+    # later limbs first: they enter the computation last, so the target depends on them most directly
+    choices.sort(key=lambda c: (len(c), -max(k[1] for k in c)))
+    attempts = 0
+    for freeset in choices:
+        for rep in range(2):
+            if attempts >= 10 or time.time() - t0 > 6 * timeout:
+                return (prog["pkg"], prog["func"], t, "unknown", time.time() - t0, None)
+            attempts += 1
+            base = rand_inputs(prog, rng)
+            fixed = {}
+            for name, v in base.items():
+                if isinstance(v, list):
+                    for i, x in enumerate(v):
+                        fixed[(name, i)] = x
+                else:
+                    fixed[(name, 0)] = v
+            for d in prog["inputs"]:          # keep the fixed part below the modulus whatever the free limbs become
+                if d["len"] == 4 and d["w"] == 64 and prog["func"] not in UNCONSTRAINED and (d["name"], 3) not in freeset:
+                    if any(k[0] == d["name"] for k in freeset):
+                        fixed[(d["name"], 3)] = rng.randrange(0, M64 - 1)
+            for k in freeset:
+                fixed.pop(k, None)
+            r, inp = _z3_attempt(prog, t, need, fixed, min(timeout, 20))
+            if r == "sat":
+                return (prog["pkg"], prog["func"], t, "sat", time.time() - t0, inp)
+    return (prog["pkg"], prog["func"], t, "unknown", time.time() - t0, None)
 
 
 def valid(prog, inp):
@@ -301,15 +374,23 @@ def valid(prog, inp):
     return True
 
 
-def generate(repo, budget, z3_timeout, workers, seed, log=lambda *a: None, prev=None):
+def generate(repo, budget, z3_timeout, workers, seed, log=lambda *a: None, prev=None, max_muls=10**9):
     ex = extract(repo)
     settled = set()   # (pkg.func, "site:kind:name") already sat / unsat in an earlier run on the SAME programs
     prev_corpus = []
     if prev:
         pd = json.load(open(prev))
+        byname = {p["pkg"] + "." + p["func"]: p for p in ex["programs"]}
         for k, v in pd.get("z3", {}).items():
             for t, r, d in v:
                 if r in ("sat", "unsat"):
+                    head = t.split(":")[0]
+                    if head.isdigit() and k in byname:   # first-generation files numbered the sites (there were no mulop sites then)
+                        pr = byname[k]
+                        pr["_ids"] = site_ids(pr)
+                        old = [i for i, s_ in enumerate(pr["sites"]) if s_["kind"] != "mulop"]
+                        if int(head) < len(old):
+                            t = pr["_ids"][old[int(head)]] + ":" + ":".join(t.split(":")[1:])
                     settled.add((k, t))
         prev_corpus = [e for e in pd["corpus"] if e["how"].startswith("z3")]
     progs = [p for p in ex["programs"] if p.get("sites")]
@@ -332,10 +413,10 @@ def generate(repo, budget, z3_timeout, workers, seed, log=lambda *a: None, prev=
         stats[key] = {"targets": len(ts), "by_random": len(ts) - len(open_t), "by_z3": 0, "unreached": 0, "sites": len(prog["sites"])}
         for inp, hit, how in kept:
             corpus.append({"pkg": prog["pkg"], "func": prog["func"], "inputs": inp, "how": how,
-                           "targets": ["%s:%s:%s" % (prog["sites"][t[0]]["pos"], t[1], t[2]) for t in hit]})
+                           "targets": [tid(prog, t) for t in hit]})
         # cheapest first: targets whose cone is small
         for i in sorted(open_t):
-            if (key, "%d:%s:%s" % ts[i]) not in settled:
+            if (key, tid(prog, ts[i])) not in settled:
                 jobs.append((prog, ts[i]))
     log("carrycov: %d programs, %d targets open after random search" % (len(progs), len(jobs)))
 
@@ -352,6 +433,7 @@ def generate(repo, budget, z3_timeout, workers, seed, log=lambda *a: None, prev=
                 muls += 1
             st.extend(prog["nodes"][x].get("a", []))
         return muls
+    jobs = [j for j in jobs if cone(j) <= max_muls]
     jobs.sort(key=cone)
     t_end = time.time() + budget
     solved_for = {}
@@ -370,8 +452,8 @@ def generate(repo, budget, z3_timeout, workers, seed, log=lambda *a: None, prev=
                 if res == "sat" and valid(prog, inp) and holds(prog, ceval(prog, inp), t):
                     stats[key]["by_z3"] += 1
                     corpus.append({"pkg": pkg, "func": fn, "inputs": inp, "how": "z3 %.1fs" % dt,
-                                   "targets": ["%s:%s:%s" % (prog["sites"][t[0]]["pos"], t[1], t[2])]})
-                solved_for.setdefault(key, []).append((t, res, round(dt, 1)))
+                                   "targets": [tid(prog, t)]})
+                solved_for.setdefault(key, []).append((tid(prog, t), res, round(dt, 1)))
     for e in corpus:   # JSON: limbs as hex strings
         e["inputs"] = {k: ([hex(x) for x in v] if isinstance(v, list) else hex(v)) for k, v in e["inputs"].items()}
     for e in prev_corpus:
@@ -381,10 +463,10 @@ def generate(repo, budget, z3_timeout, workers, seed, log=lambda *a: None, prev=
     if prev:
         for k, v in pd.get("z3", {}).items():
             solved_for.setdefault(k, [])
-            solved_for[k] += [(tuple(t.split(":")), r, d) for t, r, d in v if r in ("sat", "unsat")]
+            solved_for[k] += [(t, r, d) for t, r, d in v if r in ("sat", "unsat")]
     for key, st in stats.items():
         st["unreached"] = st["targets"] - st["by_random"] - st["by_z3"]
-    return {"corpus": corpus, "stats": stats, "skipped": ex["skipped"], "z3": {k: [[("%s:%s:%s" % tuple(t)), r, d] for t, r, d in v] for k, v in solved_for.items()}}
+    return {"corpus": corpus, "stats": stats, "skipped": ex["skipped"], "z3": {k: [[t, r, d] for t, r, d in v] for k, v in solved_for.items()}}
 
 
 if __name__ == "__main__":
@@ -398,8 +480,9 @@ if __name__ == "__main__":
     ap.add_argument("--workers", type=int, default=16)
     ap.add_argument("--seed", type=int, default=1)
     ap.add_argument("--prev", default=None)
+    ap.add_argument("--max-muls", type=int, default=10**9, help="only hand z3 targets whose cone has at most this many 64x64 multiplications")
     a = ap.parse_args()
-    res = generate(a.repo, a.budget, a.z3_timeout, a.workers, a.seed, log=lambda *x: print(*x, file=sys.stderr, flush=True), prev=a.prev)
+    res = generate(a.repo, a.budget, a.z3_timeout, a.workers, a.seed, log=lambda *x: print(*x, file=sys.stderr, flush=True), prev=a.prev, max_muls=a.max_muls)
     json.dump(res, open(a.out, "w"), indent=0)
     tot = {"targets": 0, "by_random": 0, "by_z3": 0, "unreached": 0}
     for k, st in sorted(res["stats"].items()):
